@@ -144,7 +144,6 @@ func VerifC18_ELoc() {
 	vAssert(has, "the error carries a location")
 	vObserve("got.pos", got.Pos)
 	vObserve("want.pos", wantLoc.Pos)
-	vObserve("err", res.String())
 	vAssert(got.File == "prog.lisp", "the location lies within the source that was loaded")
 	vAssert(got.Pos == wantLoc.Pos, "the error's position is the position of the form whose evaluation raised it")
 	vAssert(got.Line == wantLoc.Line && got.Col == wantLoc.Col, "line and column too")
